@@ -123,6 +123,9 @@ def edit_size(a, b):
 
 
 LOCAL_EDIT_TOKENS = 12
+# A function whose skeleton differs from the confirmed reference by more than this many tokens (or that has no reference at all) was
+# restructured: positive judgements anchored in it were confirmed by reading the old shape and are reported UNDECIDED, not VIOLATED
+RESTRUCTURE_TOKENS = int(os.environ.get("VERIF_RESTRUCTURE_TOKENS", "40"))
 
 
 class Ob:
@@ -133,9 +136,9 @@ class Ob:
     construct confirmed on the reference tree (same skeleton, different leaves); otherwise it is UNDECIDED
     (unrecognised shape, e.g. after a refactoring) and counts as an analysis error, never as a violation."""
 
-    __slots__ = ("rule", "clause", "file", "line", "func", "construct", "ok", "detail", "slot", "positive", "skel", "status", "skel_kind", "force_undecided", "fn_skel")
+    __slots__ = ("rule", "clause", "file", "line", "func", "construct", "ok", "detail", "slot", "positive", "skel", "status", "skel_kind", "force_undecided", "fn_skel", "robust", "depends")
 
-    def __init__(self, rule, clause, fn, node, ok, detail, construct=None, slot=None, positive=False, undecided=False):
+    def __init__(self, rule, clause, fn, node, ok, detail, construct=None, slot=None, positive=False, undecided=False, depends=()):
         self.rule = rule
         self.clause = clause
         if fn is not None:
@@ -151,6 +154,9 @@ class Ob:
         # slot: a stable, line-free name of the rule instance (e.g. "bond.types-delete")
         self.slot = slot or self.construct
         self.positive = bool(positive)
+        # positive="robust": the judgement is a contradiction between constructs of the analysed code itself (an API contract, a decision table
+        # evaluated whole, a write to module state) and does not rest on the confirmed shape of the enclosing function
+        self.robust = positive == "robust" or (bool(positive) and rule[:1] == "G" and rule[1:2].isdigit())
         st = node
         if isinstance(node, ast.AST) and not isinstance(node, (ast.stmt, ast.Module)) and fn is not None and hasattr(fn, "stmt_of"):
             try:
@@ -163,6 +169,15 @@ class Ob:
         self.force_undecided = bool(undecided)
         self.status = "holds" if self.ok else "unclassified"
         # skeleton of the whole enclosing function (cached on the function object): used to tell a local edit from a restructuring
+        # other functions the judgement rests on (e.g. the reader for a writer-side obligation): (qualname, skeleton)
+        self.depends = []
+        for d in depends or ():
+            if d is not None and hasattr(d, "node") and d is not fn:
+                ds = getattr(d, "_fn_skel_cache", None)
+                if ds is None:
+                    ds = skeleton(d.node)
+                    d._fn_skel_cache = ds
+                self.depends.append((d.qualname, ds))
         self.fn_skel = None
         if fn is not None and hasattr(fn, "node"):
             fs = getattr(fn, "_fn_skel_cache", None)
@@ -221,6 +236,7 @@ def load_reference_shapes():
 def classify(obs):
     """Set ob.status for failed obligations: 'violated' (positive or near miss of the reference construct) or 'undecided'."""
     refs = load_reference_shapes()
+    known = load_known_findings()
     for o in obs:
         if o.ok:
             o.status = "holds"
@@ -242,6 +258,26 @@ def classify(obs):
                     o.status = "undecided"
             else:
                 o.status = "undecided"
+        if o.status == "violated" and any(finding_matches(f_, f_.get("property"), o) for f_ in known):
+            continue  # a recorded finding stays the same finding however the function around it is rewritten
+        if o.status == "violated":
+            frefs = refs.get("__functions__") if isinstance(refs.get("__functions__"), dict) else None
+            if frefs is not None and o.fn_skel is not None and not o.robust:
+                fref = frefs.get(o.func)
+                n = None if fref is None else edit_size(o.fn_skel, fref)
+                if n is None or n > RESTRUCTURE_TOKENS:
+                    o.status = "undecided"
+                    o.detail = "%s [enclosing function %s: judgement needs re-confirmation]" % (
+                        o.detail, "has no confirmed reference" if n is None else "restructured, %d tokens differ from the confirmed reference" % n)
+            if frefs is not None and o.status == "violated" and not o.robust:
+                for q, ds in o.depends:
+                    dref = frefs.get(q)
+                    n = None if dref is None else edit_size(ds, dref)
+                    if n is None or n > RESTRUCTURE_TOKENS:
+                        o.status = "undecided"
+                        o.detail = "%s [the judgement rests on %s, which %s: needs re-confirmation]" % (
+                            o.detail, q, "has no confirmed reference" if n is None else "was restructured, %d tokens differ from the confirmed reference" % n)
+                        break
     return obs
 
 
